@@ -176,6 +176,18 @@ theorem mul_idx_bound' {m n i : Int} (hm : 0 ≤ m) (hi0 : 0 ≤ i) (hi : i < n)
   · positivity
   · nlinarith
 
+theorem wp_arChecks (e : Ext) (nparams : Int) (pnan : Nat → Bool) (bad : Bool)
+    (h : nparams ≤ e .params) :
+    wp (arChecks e (constExt 10) nparams pnan bad) (fun r => r = some () → 0 < nparams ∧ nparams ≤ 10) := by
+  unfold arChecks
+  wp_run
+  · intro h; cases h
+  · refine wp_forLoop (fun _ _ => True) _ _ _ trivial ?_ ?_
+    · intro j s _ _ _
+      wp_run
+    · intro x _
+      cases x <;> wp_run
+
 /-! ### integer grid core -/
 open HydroVerif.C07
 
@@ -277,5 +289,28 @@ theorem wp_downstream1 {e eb : Ext} {bu bd : Buf} {nrows ncols : Int} {code fdir
       intro d hd; cases hd; exact Or.inl rfl
     · refine ⟨by simp [InGrid]; omega, ?_⟩
       intro d hd; cases hd; exact downCell_spec _ _ _ _ _
+
+theorem wp_upstream1 {e : Ext} {nrows ncols : Int} {code fdir : Nat → Int} {row idx : Int}
+    (hr : 0 ≤ nrows) (hc : 0 ≤ ncols) (hN : nrows * ncols ≤ 9223372036854775807)
+    (hfd : nrows * ncols ≤ e .flowdir) (hcode : 9 ≤ e .flowdircode)
+    (hrow : 0 ≤ row) (hup : 9 * row + 9 ≤ e .idxup) :
+    wp (upstream1 e nrows ncols code fdir row idx) (fun _ => True) := by
+  unfold upstream1
+  have h0 : 0 ≤ nrows * ncols := Int.mul_nonneg hr hc
+  refine wp_bind (wp_i64 ⟨by omega, by omega⟩ ?_)
+  refine wp_ite (fun h => wp_pure trivial) (fun h => ?_)
+  refine wp_bind (wp_mono (wp_neighboursInto (eb := nbExt) (b := .nbloc) (by simp [nbExt]) hr hc hN) (fun _ _ => ?_))
+  refine wp_bind (wp_forLoop (fun j k => 0 ≤ k ∧ k ≤ j) _ _ _ (by simp) ?_ ?_)
+  · intro j k hj0 hj1 hI
+    have hnb := neighbour_inGrid nrows ncols idx j.toNat
+    unfold InGrid at hnb
+    wp_lin
+  · intro x hx
+    cases x with
+    | inr x => exact nomatch x
+    | inl k =>
+      have := hx k rfl
+      wp_lin
+
 
 end HydroVerif.C05
